@@ -18,7 +18,8 @@ RULE = ("TLC (GenC20.tla) enumerates EVERY path with <= 5 vertices on the 3x3 gr
         "TrimCollinear (closed/open, twice), SimplifyPath and RamerDouglasPeucker (eps 0, 1/2, 1, 2; closed/open), StripDuplicates, StripNearEqual "
         "(thresholds 1, 2, 9/2), TranslatePath, GetBounds, Length, with the PathD / Paths overloads as variants; plus seeded random paths (<= 12 "
         "vertices: collinear runs, repeated points, spikes, partial reversals, first = last; 10 epsilons) and degenerate shapes in every rotation "
-        "under embeddings up to 2^61, and an Ellipse sweep (2 centres x radii 0..12 in halves x 10 step counts); every call is judged by TLC. "
+        "under embeddings up to 2^61, seeded NEAR-collinear paths with edge components 2^26..2^42 whose corners have exact cross products 0, +-1, +-2, .. "
+        "(TrimCollinear Path64 + PathD overload, closed/open, rotated/reversed; verdict by TLC with big integers, C20BigTrace.tla), and an Ellipse sweep (2 centres x radii 0..12 in halves x 10 step counts); every call is judged by TLC. "
         "evaluations = library calls recorded (variants identical to the primary result are counted separately); distinct_nontrivial = distinct "
         "(path, function, configuration) whose result differs from the input path, counted by 64-bit hashing in the harness")
 
@@ -60,10 +61,18 @@ def _crash_of(p):
 
 def _crash_rec(j):
     c = j["crash"]
+    if j["sub"] == "c20big":
+        return {"prop": PROP, "clause": "library_call_crashed", "detail": "signal %d in %s(%s)" % (c["crash"], c["fn"], c["cfg"]),
+                "case": {"e": "Big", "p": c["p"]}, "event": c, "module": "C20BigTrace", "harness": {"sub": "c20big", "args": {}}}
     return {"prop": PROP, "clause": "library_call_crashed", "detail": "signal %d in %s(%s)" % (c["crash"], c["fn"], c["cfg"]),
             "case": {"e": "Path", "p": c["p"], "emb": c["emb"], "fam": j["args"].get("fam")}, "event": c,
             "harness": {"sub": "c20", "args": {"eps": j["args"].get("eps", "0/1,1/2,1/1,3/2,2/1,3/1,5/1,8/1,1/4,7/2"), "mds": j["args"].get("mds", MDS),
                                                "emb": c["emb"], "seed": j["args"].get("seed", 1), "lite": j["args"].get("lite", 0)}}}
+
+
+def _unwire(w):
+    """C18BigInt wire format [sign, 12-bit limbs little-endian] -> int"""
+    return w[0] * sum(l << (12 * i) for i, l in enumerate(w[1:]))
 
 
 def _eps_of(ev):
@@ -87,7 +96,15 @@ def _collect(ctx, results, byfile):
         for fl in res.fails:
             ev = json.loads(lines[fl["line"] - 1])
             j = byfile[f]
-            if ev["e"] == "Path":
+            if ev["e"] == "Big":
+                if fl["clause"] == "bad_wire":
+                    raise core.ModelFailure("C20BigTrace: malformed wide integer in event %s" % ev["id"])
+                path = [[_unwire(q[0]), _unwire(q[1])] for q in ev["p"]]
+                rec = {"prop": fl["prop"], "clause": fl["clause"], "detail": fl["detail"],
+                       "case": {"e": "Big", "p": path, "closed": ev["c"], "overload": ev["v"]},
+                       "event": {"out": [[_unwire(q[0]), _unwire(q[1])] for q in ev["out"]]},
+                       "module": "C20BigTrace", "harness": {"sub": "c20big", "args": {}}}
+            elif ev["e"] == "Path":
                 try:
                     first = int(fl["detail"].strip("<>").split(",")[0])
                 except ValueError:
@@ -115,6 +132,11 @@ def _replay_rec(rec):
         with open(inf, "w") as f:
             f.write(json.dumps({"p": rec["case"]["p"]}) + "\n")
         cmd += ["--fam", "in", "--in", inf]
+    if h["sub"] == "c20big":
+        inf = os.path.join(work, "in.ndjson")
+        with open(inf, "w") as f:
+            f.write(json.dumps({"p": rec["case"]["p"]}) + "\n")
+        cmd += ["--in", inf]
     for k, v in h["args"].items():
         cmd += ["--" + k, str(v)]
     cmd += ["--out", out]
@@ -123,7 +145,8 @@ def _replay_rec(rec):
         return rec["clause"] == "library_call_crashed"
     if p.returncode != 0:
         raise core.ModelFailure("replay harness failed: " + p.stderr.decode(errors="replace")[-1000:])
-    res = core.validate_traces("C20Trace", "C20Trace.cfg", [out], timeout=300)
+    mod = rec.get("module", "C20Trace")
+    res = core.validate_traces(mod, mod + ".cfg", [out], timeout=300)
     return any(fl["prop"] == PROP and fl["clause"] == rec["clause"] for _, r in res for fl in r.fails)
 
 
@@ -166,6 +189,8 @@ def run(ctx):
         add("c20", fam="rand", n=1500 if q else 6000, maxlen=12, emb="0,1,3,4", seed=s * 1000 + k)
     add("c20", fam="degen", emb="0,1,3,4", seed=s)
     add("c20ell", maxr2=24)
+    for k in range(8 if q else 32):     # near-collinear paths with large coordinates (exact cross products 0, +-1, +-2, ..), judged with big integers
+        add("c20big", n=1500 if q else 5000, seed=s * 1000 + 500 + k)
     if not q:
         for k in range(nsh):      # the 3x3 scope again under translation 2^29, scale 2^13 (+2^52) and scale 2^21 (+2^61)
             add("c20", fam="in", **{"in": gens[0][1]}, skip=k, stride=nsh, emb="1,3,4", eps=EPS, mds=MDS, seed=s, lite=1)
@@ -191,14 +216,33 @@ def run(ctx):
     for j in jobs[:1] + jobs[2 * nsh:2 * nsh + 1]:
         with open(j["out"]) as fh:
             for n, line in enumerate(fh):
-                if n in (40, 41):
+                if n == 40:
                     ev = json.loads(line); ev["calls"] = ev["calls"][:6] + ["... %d more" % max(0, len(ev["calls"]) - 6)]
                     ctx.sample(ev)
+    for j in jobs:
+        if j["sub"] == "c20big":
+            with open(j["out"]) as fh:
+                ev = json.loads(fh.readline())
+            ctx.sample({"e": "Big", "closed": ev["c"], "p": [[_unwire(q[0]), _unwire(q[1])] for q in ev["p"]],
+                        "out": [[_unwire(q[0]), _unwire(q[1])] for q in ev["out"]], "wire_p": ev["p"]})
+            break
     # ---- TLC decides
-    files = [j["out"] for j in jobs]
+    files = [j["out"] for j in jobs if j["sub"] != "c20big"]
+    bigfiles = [j["out"] for j in jobs if j["sub"] == "c20big"]
     res = core.validate_traces("C20Trace", "C20Trace.cfg", files, timeout=2400, heap="2g")
-    ctx.traces = sum(core.count_lines(f) for f in files)
+    bigres = core.validate_traces("C20BigTrace", "C20BigTrace.cfg", bigfiles, timeout=2400, heap="2g")
+    ctx.traces = sum(core.count_lines(f) for f in files + bigfiles)
     _collect(ctx, res, {j["out"]: j for j in jobs})
+    _collect(ctx, bigres, {j["out"]: j for j in jobs})
+    big3 = [0, 0, 0]
+    for _, r in bigres:
+        for n in r.notes:
+            if n["kind"] == "STATS":
+                big3 = [a + int(b) for a, b in zip(big3, n["detail"].strip("<>").split(","))]
+    ctx.extra["judged_by_tlc_big_integers"] = {"trimcollinear_calls_large_near_collinear": big3[0], "of_which_clean_input": big3[1],
+                                               "of_which_with_a_corner_of_exact_cross_product_1_to_64": big3[2]}
+    if big3[2] == 0 and not [j for j in crashed if j["sub"] == "c20big"]:
+        raise core.ModelFailure("vacuity guard: no near-collinear large path with a tiny non-zero cross product was judged")
     tot5 = [0, 0, 0, 0, 0]
     for _, r in res:
         for n in r.notes:
@@ -208,8 +252,8 @@ def run(ctx):
                                   "simplifypath_calls_that_removed_vertices": tot5[3], "ellipse_calls": tot5[4]}
     if crashed:
         pass
-    elif tot5[0] + tot5[4] != ctx.evaluations:
-        raise core.ModelFailure("TLC judged %d calls but the harness recorded %d" % (tot5[0] + tot5[4], ctx.evaluations))
+    elif tot5[0] + tot5[4] + big3[0] != ctx.evaluations:
+        raise core.ModelFailure("TLC judged %d calls but the harness recorded %d" % (tot5[0] + tot5[4] + big3[0], ctx.evaluations))
     if min(tot5) == 0 and not crashed:
         raise core.ModelFailure("vacuity guard: a call class was never exercised: %s" % tot5)
     # ---- design-level runs (thorough: after the trace validation so that they get the cores)
